@@ -1,0 +1,258 @@
+//! In-memory byte pipe that stands in for a transport substream inside the verification adapters.
+//!
+//! The local end ([`PipeEnd`]) is handed to litep2p wrapped in a `Substream`
+//! (`Substream::new_verif`); the control end ([`PipeCtl`]) is kept by the adapter which plays the
+//! remote peer and the transport: it writes bytes, reads what litep2p wrote, closes, resets, limits
+//! the write capacity (back-pressure) and can make `poll_shutdown` stay pending (a close that does
+//! not complete until released).
+
+use tokio::io::{AsyncRead, AsyncWrite, ReadBuf};
+
+use std::{
+    collections::VecDeque,
+    io,
+    pin::Pin,
+    sync::{Arc, Mutex},
+    task::{Context, Poll, Waker},
+};
+
+thread_local! {
+    /// Set by an adapter while it polls a task spawned through the `Executor` (e.g. a notification
+    /// `Connection` task). A stalled close only takes effect there, so that a handler of a protocol
+    /// event loop (which the adapters poll one event at a time) never blocks half-way.
+    pub static IN_TASK: std::cell::Cell<bool> = const { std::cell::Cell::new(false) };
+}
+
+/// What a `Substream` needs from its inner I/O object.
+pub trait VerifIo: AsyncRead + AsyncWrite + Send + Unpin + 'static {}
+
+impl<T: AsyncRead + AsyncWrite + Send + Unpin + 'static> VerifIo for T {}
+
+#[derive(Default)]
+struct Shared {
+    /// Bytes written by the remote, not yet read by the local end.
+    to_local: VecDeque<u8>,
+    /// Remote closed its write side: the local end reads EOF once `to_local` is drained.
+    remote_closed: bool,
+    /// Bytes written by the local end, not yet read by the remote.
+    to_remote: VecDeque<u8>,
+    /// Capacity of `to_remote`; `poll_write` is pending while it is full.
+    cap: usize,
+    /// The local end called `poll_shutdown` successfully.
+    local_closed: bool,
+    /// The local end was dropped.
+    local_dropped: bool,
+    /// Both directions fail.
+    reset: bool,
+    /// `poll_shutdown` stays pending while set.
+    stall_close: bool,
+    read_waker: Option<Waker>,
+    write_waker: Option<Waker>,
+    close_waker: Option<Waker>,
+}
+
+/// Local end, given to litep2p.
+pub struct PipeEnd(Arc<Mutex<Shared>>);
+
+/// Control end, kept by the adapter.
+#[derive(Clone)]
+pub struct PipeCtl(Arc<Mutex<Shared>>);
+
+/// Create a pipe; `cap` bounds the bytes written by the local end and not yet read by the remote.
+pub fn pipe(cap: usize) -> (PipeEnd, PipeCtl) {
+    let shared = Arc::new(Mutex::new(Shared {
+        cap,
+        ..Default::default()
+    }));
+    (PipeEnd(Arc::clone(&shared)), PipeCtl(shared))
+}
+
+fn wake(w: &mut Option<Waker>) {
+    if let Some(w) = w.take() {
+        w.wake();
+    }
+}
+
+impl PipeCtl {
+    /// Remote writes bytes.
+    pub fn remote_write(&self, bytes: &[u8]) {
+        let mut s = self.0.lock().unwrap();
+        s.to_local.extend(bytes.iter().copied());
+        wake(&mut s.read_waker);
+    }
+
+    /// Remote closes its write side (the local end reads EOF after the buffered bytes).
+    pub fn remote_close(&self) {
+        let mut s = self.0.lock().unwrap();
+        s.remote_closed = true;
+        wake(&mut s.read_waker);
+    }
+
+    /// Reset: reads and writes of the local end fail from now on.
+    pub fn reset(&self) {
+        let mut s = self.0.lock().unwrap();
+        s.reset = true;
+        wake(&mut s.read_waker);
+        wake(&mut s.write_waker);
+    }
+
+    /// Remote reads everything the local end has written so far.
+    pub fn remote_read_all(&self) -> Vec<u8> {
+        let mut s = self.0.lock().unwrap();
+        let out: Vec<u8> = s.to_remote.drain(..).collect();
+        wake(&mut s.write_waker);
+        out
+    }
+
+    /// Remote reads at most `n` bytes.
+    pub fn remote_read(&self, n: usize) -> Vec<u8> {
+        let mut s = self.0.lock().unwrap();
+        let n = n.min(s.to_remote.len());
+        let out: Vec<u8> = s.to_remote.drain(..n).collect();
+        wake(&mut s.write_waker);
+        out
+    }
+
+    /// Change the write capacity.
+    pub fn set_cap(&self, cap: usize) {
+        let mut s = self.0.lock().unwrap();
+        s.cap = cap;
+        wake(&mut s.write_waker);
+    }
+
+    /// Make `poll_shutdown` of the local end pending (`true`) or let it complete (`false`).
+    pub fn set_stall_close(&self, stall: bool) {
+        let mut s = self.0.lock().unwrap();
+        s.stall_close = stall;
+        if !stall {
+            wake(&mut s.close_waker);
+        }
+    }
+
+    /// Did the local end shut down its write side (or was it dropped)?
+    pub fn local_closed(&self) -> bool {
+        let s = self.0.lock().unwrap();
+        s.local_closed || s.local_dropped
+    }
+
+    /// Bytes written by the local end and not yet read by the remote.
+    pub fn pending_to_remote(&self) -> usize {
+        self.0.lock().unwrap().to_remote.len()
+    }
+}
+
+impl AsyncRead for PipeEnd {
+    fn poll_read(
+        self: Pin<&mut Self>,
+        cx: &mut Context<'_>,
+        buf: &mut ReadBuf<'_>,
+    ) -> Poll<io::Result<()>> {
+        let mut s = self.0.lock().unwrap();
+        if s.reset {
+            return Poll::Ready(Err(io::ErrorKind::ConnectionReset.into()));
+        }
+        if !s.to_local.is_empty() {
+            let n = buf.remaining().min(s.to_local.len());
+            let bytes: Vec<u8> = s.to_local.drain(..n).collect();
+            buf.put_slice(&bytes);
+            return Poll::Ready(Ok(()));
+        }
+        if s.remote_closed {
+            return Poll::Ready(Ok(()));
+        }
+        s.read_waker = Some(cx.waker().clone());
+        Poll::Pending
+    }
+}
+
+impl AsyncWrite for PipeEnd {
+    fn poll_write(
+        self: Pin<&mut Self>,
+        cx: &mut Context<'_>,
+        buf: &[u8],
+    ) -> Poll<io::Result<usize>> {
+        let mut s = self.0.lock().unwrap();
+        if s.reset || s.local_closed {
+            return Poll::Ready(Err(io::ErrorKind::BrokenPipe.into()));
+        }
+        let space = s.cap.saturating_sub(s.to_remote.len());
+        if space == 0 {
+            s.write_waker = Some(cx.waker().clone());
+            return Poll::Pending;
+        }
+        let n = space.min(buf.len());
+        s.to_remote.extend(buf[..n].iter().copied());
+        Poll::Ready(Ok(n))
+    }
+
+    fn poll_flush(self: Pin<&mut Self>, _cx: &mut Context<'_>) -> Poll<io::Result<()>> {
+        let s = self.0.lock().unwrap();
+        if s.reset {
+            return Poll::Ready(Err(io::ErrorKind::BrokenPipe.into()));
+        }
+        Poll::Ready(Ok(()))
+    }
+
+    fn poll_shutdown(self: Pin<&mut Self>, cx: &mut Context<'_>) -> Poll<io::Result<()>> {
+        let mut s = self.0.lock().unwrap();
+        if s.stall_close && IN_TASK.with(|c| c.get()) {
+            s.close_waker = Some(cx.waker().clone());
+            return Poll::Pending;
+        }
+        s.local_closed = true;
+        Poll::Ready(Ok(()))
+    }
+}
+
+impl Drop for PipeEnd {
+    fn drop(&mut self) {
+        if let Ok(mut s) = self.0.lock() {
+            s.local_dropped = true;
+        }
+    }
+}
+
+/// Encode one unsigned-varint length-prefixed frame (what the notification codec expects).
+pub fn frame(payload: &[u8]) -> Vec<u8> {
+    let mut n = payload.len();
+    let mut out = Vec::new();
+    loop {
+        let b = (n & 0x7f) as u8;
+        n >>= 7;
+        if n == 0 {
+            out.push(b);
+            break;
+        }
+        out.push(b | 0x80);
+    }
+    out.extend_from_slice(payload);
+    out
+}
+
+/// Split a byte string into complete unsigned-varint frames; returns the frames and the number of
+/// bytes consumed.
+pub fn unframe(bytes: &[u8]) -> (Vec<Vec<u8>>, usize) {
+    let mut frames = Vec::new();
+    let mut i = 0;
+    loop {
+        let start = i;
+        let mut len = 0usize;
+        let mut shift = 0;
+        let mut ok = false;
+        while i < bytes.len() && shift < 63 {
+            let b = bytes[i];
+            i += 1;
+            len |= ((b & 0x7f) as usize) << shift;
+            shift += 7;
+            if b & 0x80 == 0 {
+                ok = true;
+                break;
+            }
+        }
+        if !ok || i + len > bytes.len() {
+            return (frames, start);
+        }
+        frames.push(bytes[i..i + len].to_vec());
+        i += len;
+    }
+}
